@@ -443,3 +443,27 @@ func Probe(scs []*Scenario) []string {
 	}
 	return out
 }
+
+// Determinism runs the default schedule of a scenario twice and describes the first difference.
+func Determinism(sc *Scenario) string {
+	x := &explorer{sc: sc}
+	a, _ := x.run(nil)
+	b, _ := x.run(nil)
+	if len(a.Choices) != len(b.Choices) {
+		for i := 0; i < len(a.Choices) && i < len(b.Choices); i++ {
+			if a.Choices[i] != b.Choices[i] {
+				return fmt.Sprintf("choice %d differs: %+v vs %+v (lens %d %d)", i, a.Choices[i], b.Choices[i], len(a.Choices), len(b.Choices))
+			}
+		}
+		return fmt.Sprintf("choice counts differ: %d vs %d", len(a.Choices), len(b.Choices))
+	}
+	for i := range a.Log {
+		if i >= len(b.Log) || a.Log[i] != b.Log[i] {
+			return fmt.Sprintf("log line %d differs:\n%s\n%s", i, a.Log[i], b.Log[i])
+		}
+	}
+	if a.Kind != b.Kind || a.Detail != b.Detail {
+		return fmt.Sprintf("outcome differs: %s/%s vs %s/%s", a.Kind, a.Detail, b.Kind, b.Detail)
+	}
+	return "deterministic"
+}
